@@ -15,8 +15,9 @@ THEOREMS = [P + t for t in [
     "C18_delete_needs_prefixAbsent", "C18_rename_needs_prefixAbsent", "C18_rename_needs_prefix", "C18_rename_needs_newName",
     "C18_param_change_needs_distinctNames",
     "C18_rename_pinned_counterexample", "C18_delete_pinned_counterexample", "C18_metrics_pinned_counterexample"]]
-RULE = ("generated ODX documents (1-3 layers incl. inheritance, 1-5 services per layer with distinct or shared constant prefixes, 1-4 "
-        "request parameters, 0-2 positive and 0-1 negative responses) loaded through the XML parser; every single edit add / delete / "
+RULE = ("generated ODX documents (1-3 layers incl. inheritance, 1-5 services per layer with distinct or shared constant prefixes given by "
+        "CODED-CONST and/or PHYS-CONST parameters, 1-4 request parameters, 0-2 positive and 0-1 negative responses, 0-5 COMPARAM-REFs per layer "
+        "with or without PROTOCOL-SNREF) loaded through the XML parser; every single edit add / delete / "
         "rename of every service and every applicable attribute edit (byte position, bit length, coded value, semantic, data type, linked "
         "DOP) of (a sample of) the parameters; plus structural edits (parameter/response added or removed, DOP changed, two edits at "
         "once) for correspondence only; distinct = distinct (old spec, new spec, layer); non-trivial = the two layers differ")
@@ -25,7 +26,8 @@ TRUSTED = ["model lean/OdxVerif/Model/Compare.lean is hand-written; tied to odxt
            "inputs of the model computed by the real code and taken as given: request.coded_const_prefix(), get_static_bit_length(), "
            "`==` classes of DiagService / DOP / Unit objects, parameter attributes",
            "the XML builder and the expected-report oracle in harness/compare_lib.py / props/c18.py (model-free: expectation is computed "
-           "from the edit that was applied)",
+           "from the edit that was applied; the constant request prefix that decides the add/delete/rename envelope is computed from the "
+           "spec (compare_lib.spec_prefix) as well as by the implementation, a case is claimed when either says 'not shared')",
            "Rich table rendering (the table is rendered with a 300-column console and parsed back)"]
 ASSUMPTIONS = ["envelope: short names distinct within a layer, every service has a request (guaranteed by the loader); add/delete/rename are "
                "claimed for services whose constant request prefix is not shared with another service of the layer, rename additionally needs a "
@@ -33,6 +35,7 @@ ASSUMPTIONS = ["envelope: short names distinct within a layer, every service has
                "compared values: ints and strings (a value whose equality differs from equality of its repr, e.g. 1 == 1.0, is outside the model)"]
 
 VALS = (0x01, 0x10, 0x22, 0x2E, 0x31, 0x3E, 0x7F)
+PROTOS = (None, "UDS_CAN", "UDS_DoIP")   # PROTOCOL-SNREF of a COMPARAM-REF (None = element absent)
 
 
 # ------------------------------------------------------------------ generation
@@ -43,8 +46,14 @@ def P_(name, kind="const", **kw):
 
 
 def gen_params(rng, dops, prefix, section):
-    """prefix: list of const values leading the request"""
-    ps = [P_(f"c{i}", val=v, sem=("SERVICE-ID" if i == 0 and rng.random() < .5 else None)) for i, v in enumerate(prefix)]
+    """prefix: the constants leading the request: an int = CODED-CONST (8 bit) with that value, ["pc", value, dop name] = PHYS-CONST"""
+    ps = []
+    for i, v in enumerate(prefix):
+        sem = "SERVICE-ID" if i == 0 and rng.random() < .5 else None
+        if isinstance(v, int):
+            ps.append(P_(f"c{i}", val=v, sem=sem))
+        else:
+            ps.append(P_(f"c{i}", "physconst", val=v[1], dop=v[2], sem=sem))
     n_more = rng.randint(0 if ps else 1, max(0, 4 - len(ps)))
     for i in range(n_more):
         r = rng.random()
@@ -67,10 +76,26 @@ def gen_params(rng, dops, prefix, section):
     return ps[:4] if section == "req" else ps
 
 
+def lead_val(x):
+    return x if isinstance(x, int) else x[1]
+
+
+def lead_of(svc):
+    """the prefix element (see gen_params) describing the first request parameter of a service spec, None if it is no constant"""
+    if not svc["req"]:
+        return None
+    p = svc["req"][0]
+    if p["kind"] == "const" and p["bl"] == 8 and p.get("bt", "A_UINT32") == "A_UINT32":
+        return p["val"]
+    if p["kind"] == "physconst":
+        return ["pc", p["val"], p["dop"]]
+    return None
+
+
 def gen_service(rng, name, dops, prefix):
     s = {"id": name, "name": name, "req": gen_params(rng, dops, prefix, "req"), "pos": [], "neg": []}
     for _ in range(rng.choice([0, 1, 1, 2])):
-        s["pos"].append(gen_params(rng, dops, [(prefix[0] + 0x40) & 0xFF] if prefix else [], "pos")[:3] or [P_("c0", val=0x40)])
+        s["pos"].append(gen_params(rng, dops, [(lead_val(prefix[0]) + 0x40) & 0xFF] if prefix else [], "pos")[:3] or [P_("c0", val=0x40)])
     if rng.random() < .4:
         s["neg"].append(gen_params(rng, dops, [0x7F], "neg")[:3])
     return s
@@ -93,20 +118,31 @@ def gen_spec(rng, big=False):
         ln = tag.upper()
         nsvc = rng.randint(1, 5) if prev is None else rng.randint(0, 2)
         svcs = []
+        # how the requests of this layer are identified: by a CODED-CONST, by a PHYS-CONST (value given through a DOP), or either
+        sidkind = rng.choice(["const", "const", "const", "phys", "mixed"])
         for k in range(nsvc):
             r = rng.random()
             if r < .12:
                 prefix = []                                   # no constant prefix (b"")
-            elif r < .35 and svcs and svcs[-1]["req"] and svcs[-1]["req"][0]["kind"] == "const":
-                prefix = [svcs[-1]["req"][0]["val"]]          # shared with the previous service
+            elif r < .35 and svcs and lead_of(svcs[-1]) is not None:
+                prefix = [lead_of(svcs[-1])]                  # shared with the previous service
             else:
-                prefix = [rng.choice(VALS)] + ([k + 1] if rng.random() < .4 else [])
+                v = rng.choice(VALS)
+                if sidkind == "phys" or (sidkind == "mixed" and rng.random() < .5):
+                    prefix = [["pc", v, rng.choice(dops)["name"]]]
+                else:
+                    prefix = [v]
+                if rng.random() < .4:                         # sub-function
+                    prefix.append(["pc", k + 1, rng.choice(dops)["name"]] if sidkind != "const" and rng.random() < .5 else k + 1)
             svcs.append(gen_service(rng, f"{ln}_S{k}", dops, prefix))
         # the first layer defines all DOPs; every later layer inherits from the previous one
         L_ = {"name": ln, "kind": kinds[tag], "parent": prev, "own_dops": [d["name"] for d in dops] if prev is None else [],
               "cprefs": [], "services": svcs, "structs": rng.choice([0, 0, 1, 2])}
         if tag != "esd" and cps:
-            L_["cprefs"] = [[c, None] for c in rng.sample(cps, rng.randint(0, len(cps)))]
+            # the same comparam may be given per protocol (PROTOCOL-SNREF) and/or once without protocol
+            multi = rng.random() < .5
+            pairs = [[c, pr] for c in cps for pr in (PROTOS if multi else PROTOS[:1])]
+            L_["cprefs"] = rng.sample(pairs, rng.randint(0, min(len(pairs), 5)))
         layers.append(L_)
         prev = ln
     return {"dops": dops, "units": units, "comparams": cps, "layers": layers}
@@ -185,8 +221,14 @@ def expected_rows(spec_old, p_old, p_new, attr):
 SECTION_TEXT = {"req": "request parameter", "pos": "positive response parameter", "neg": "negative response parameter"}
 
 
-def expectation(edit, dl_new, dl_old):
-    """-> (expected canonical result | None when outside the envelope, reason)"""
+def expectation(edit, dl_new, dl_old, spec_new=None, spec_old=None, lname=None, ctx=None):
+    """-> (expected canonical result | None when outside the envelope, reason)
+
+    Envelope (add / delete / rename): the constant request prefix of the edited service is not shared with another service of
+    the other layer.  The prefix is taken (a) from the implementation (`request.coded_const_prefix()`, as before) and (b),
+    when the specs are at hand, from the spec alone (`compare_lib.spec_prefix`: the bytes fixed by the leading CODED-CONST /
+    PHYS-CONST parameters).  The case is claimed when either says "not shared", so an implementation which computes too
+    short a prefix cannot move a case out of the envelope."""
     empty = {"new": [], "deleted": [], "renamed": [], "changed": []}
     kind = edit["kind"]
     if kind == "self":
@@ -196,22 +238,42 @@ def expectation(edit, dl_new, dl_old):
         s = next(x for x in dl.services if x.short_name == name)
         return None if s.request is None else s.request.coded_const_prefix()
 
+    def by_impl(dl_p, dl_others, skip=None, need_prefix=False):
+        try:
+            p = prefix(dl_p, edit["service"])
+            others = [prefix(dl_others, s.short_name) for s in dl_others.services if s.short_name != skip]
+            return not (p in others or (need_prefix and p is None))
+        except Exception:  # noqa
+            return False
+
+    def by_spec(spec_p, spec_others, skip=None):
+        if spec_p is None or spec_others is None or lname is None:
+            return None
+        try:
+            svc = L.visible_services(spec_p, lname).get(edit["service"])
+            p = None if svc is None else L.spec_prefix(spec_p, svc)
+            others = L.spec_prefixes(spec_others, lname, exclude=skip)
+            if p is None or others is None:
+                return None
+            return p not in others
+        except Exception:  # noqa
+            return None
+
+    def inside(a, b):
+        if ctx is not None and b is not None:
+            ctx.count("prefix:spec-and-impl-agree" if a == b else f"prefix:spec-says-{'unshared' if b else 'shared'}-impl-differs")
+        return a or bool(b)
+
     if kind == "add":
-        p = prefix(dl_new, edit["service"])
-        others = [prefix(dl_old, s.short_name) for s in dl_old.services]
-        if p in others:
+        if not inside(by_impl(dl_new, dl_old), by_spec(spec_new, spec_old)):
             return None, "shared-prefix"
         return {**empty, "new": [edit["service"]]}, ""
     if kind == "delete":
-        p = prefix(dl_old, edit["service"])
-        others = [prefix(dl_new, s.short_name) for s in dl_new.services]
-        if p in others:
+        if not inside(by_impl(dl_old, dl_new), by_spec(spec_old, spec_new)):
             return None, "shared-prefix"
         return {**empty, "deleted": [edit["service"]]}, ""
     if kind == "rename":
-        p = prefix(dl_old, edit["service"])
-        others = [prefix(dl_old, s.short_name) for s in dl_old.services if s.short_name != edit["service"]]
-        if p is None or p in others:
+        if not inside(by_impl(dl_old, dl_old, skip=edit["service"], need_prefix=True), by_spec(spec_old, spec_old, skip=edit["service"])):
             return None, "shared-prefix"
         return {**empty, "renamed": [[edit["new_name"], edit["service"]]]}, ""
     if kind == "attr":
@@ -248,7 +310,7 @@ def run_case(ctx, pend, fam, spec_old, spec_new, lname, edit, db_old=None, oracl
     ctx.histo("services_in_layer", len(dl_old.services))
     if oracle:
         try:
-            exp, why = expectation(edit, dl_new, dl_old)
+            exp, why = expectation(edit, dl_new, dl_old, spec_new, spec_old, lname, ctx)
         except Exception as e:  # noqa
             exp, why = None, f"oracle-error:{type(e).__name__}"
         if exp is None:
@@ -303,6 +365,11 @@ def metrics_case(ctx, pend, spec, db):
              str(visible(spec, l.short_name, "cps") if l.variant_type.value != "ECU-SHARED-DATA" else 0)] for l in db.diag_layers]
     ctx.case(("metrics", json.dumps(spec, sort_keys=True)), nontrivial=True)
     ctx.histo("comparams_in_first_layer", true[0][4])
+    by_cp = {}
+    for l in spec["layers"]:
+        for c, pr in l.get("cprefs", []):
+            by_cp.setdefault(c, set()).add(pr)
+    ctx.histo("max_protocols_per_comparam", max([len(v) for v in by_cp.values()] or [0]))
     for tag, r in (("print_dl_metrics", rows), ("list", rows2)):
         if r != true:
             col = "raises" if isinstance(r, str) else ",".join(
@@ -339,12 +406,15 @@ def fresh_service(rng, spec, L_, shared):
     k = 0
     while f"{L_['name']}_N{k}" in names:
         k += 1
-    used = [s["req"][0]["val"] for s in L_["services"] if s["req"] and s["req"][0]["kind"] == "const"]
-    if shared and used:
-        prefix = [rng.choice(used)]
+    leads = [x for x in (lead_of(s) for s in L_["services"]) if x is not None]
+    if shared and leads:
+        prefix = [rng.choice(leads)]
     else:
-        free = [v for v in VALS + (0x05, 0x06, 0x07) if v not in used]
-        prefix = [rng.choice(free)]
+        used = [lead_val(x) for x in leads]
+        v = rng.choice([v for v in VALS + (0x05, 0x06, 0x07) if v not in used])
+        pcs = [x for x in leads if not isinstance(x, int)]
+        # in a layer whose requests are identified by PHYS-CONSTs the new service mostly is, too
+        prefix = [["pc", v, rng.choice(pcs)[2]]] if pcs and rng.random() < .7 else [v]
     return gen_service(rng, f"{L_['name']}_N{k}", spec["dops"], prefix)
 
 
@@ -491,6 +561,8 @@ def run(ctx):
             if not L_["services"]:
                 continue
             lname = L_["name"]
+            leads = {("none" if x is None else "coded-const" if isinstance(x, int) else "phys-const") for x in map(lead_of, L_["services"])}
+            ctx.histo("request_ids_of_layer", "+".join(sorted(leads)))
             children = [x["name"] for x in spec["layers"] if reaches(spec["layers"], x, lname)]
             for k, (edit, s2) in enumerate(all_edits(rng, spec, lname, max_attr)):
                 db_new = run_case(ctx, pend, edit["kind"], spec, s2, lname, edit, db)
@@ -504,7 +576,7 @@ def run(ctx):
                     try:
                         dl_old = next(d for d in db.diag_layers if d.short_name == lname)
                         dl_new = next(d for d in db_new.diag_layers if d.short_name == lname)
-                        exp, _ = expectation(edit, dl_new, dl_old)
+                        exp, _ = expectation(edit, dl_new, dl_old, s2, spec, lname)
                     except Exception:  # noqa
                         exp = None
                     lay = None
